@@ -275,6 +275,15 @@ func (t *Transport) getConn(addr string) (pc *persistConn, err error) {
 		pc = cq.Dequeue()
 		pc.lastTime = time.Now()
 		vhook("t.idle.deq", t, pc, vstr(addr), 4)
+		pc.mu.Lock()
+		alive := pc.alive
+		pc.mu.Unlock()
+		if !alive {
+			// the idle connection failed a call while it was parked: replace it
+			if pc, err = t.newPersistConn(addr); err != nil {
+				return nil, err
+			}
+		}
 	} else {
 		if pc, err = t.newPersistConn(addr); err != nil {
 			return nil, err
